@@ -324,6 +324,9 @@ func (p *parser) parseTypeAssertion(left Node) Node {
 	if left.Type() != ANY_TYPE {
 		p.appendErrorForToken("value of type assertion must be of type any, not "+left.Type().String(), tok)
 	}
+	if t == nil {
+		return nil // invalid type reported above; a node without type must not escape
+	}
 	return &TypeAssertion{T: t, token: tok, Left: left}
 }
 
